@@ -78,6 +78,16 @@ def explicit_presence_rule(fx, res, R):
                 for cc in tree_calls(cb, r"MatchedArg::check_explicit$", r"ArgMatcher::check_explicit$"):
                     if "IsPresent" in agg_variants(cc.body, cc.args[-1]) or re.search(r"IsPresent", expr(cc.body, cc.args[-1])):
                         ok = True
+            if not ok:
+                # loop form: for (id, matched) in matcher.args() { if matched.check_explicit(IsPresent) { .. } } — every other use of the
+                # element sits on the true edge of that test
+                elem = "next(into_iter(%s))#Some.0" % expr(b, c.dest)
+                tests = [cc for cc in b.calls_to(r"MatchedArg::check_explicit$", r"ArgMatcher::check_explicit$") if elem in expr(b, cc.args[0]) + expr(b, cc.args[1] if len(cc.args) > 1 else cc.args[0])
+                         and ("IsPresent" in (agg_variants(b, cc.args[-1]) or []) or re.search(r"IsPresent", expr(b, cc.args[-1])))]
+                if tests:
+                    tn = ["T:" + expr(b, t_.dest) for t_ in tests]
+                    uses = [y for y in b.calls() if y not in tests and y.bb in b.reachable(0) and any(elem in expr(b, a) for a in y.args) and not y.is_(r"Iterator>?::next$")]
+                    ok = bool(uses) and all(any(t in guard_strs(b, y.bb) for t in tn) for y in uses)
             res.check(ok, R, "explicit-filter|%s|%s" % (b.q, c.callee_q.rsplit("::", 1)[1]), c.where(), "matcher ids filtered by check_explicit(IsPresent)",
                       "%s iterates matcher.%s() without the check_explicit(IsPresent) filter: values that came from defaults count as present for conflicts/requirements" % (
                           b.q.rsplit("::", 1)[1], c.callee_q.rsplit("::", 1)[1]))
@@ -218,7 +228,7 @@ def run(ctx):
     gg = fx.body("clap_builder::parser::validator::gather_group_direct_conflicts")
     res.check(reads_field(gg, "conflicts"), "R3.4", "reads|ArgGroup::conflicts", gg.where(), "group conflicts read", "gather_group_direct_conflicts no longer reads ArgGroup::conflicts")
     wa = fx.body("clap_builder::parser::validator::Conflicts::with_args")
-    res.check(any(cb.calls_to(r"validator::gather_direct_conflicts$") for c in wa.calls_to(r"Iterator::map$") for cb in closure_bodies(fx, c)), "R3.4", "potential-from-present", wa.where(),
+    res.check(any(cb.calls_to(r"validator::gather_direct_conflicts$") for c in wa.calls_to(r"Iterator::map$") for cb in closure_bodies(fx, c)) or bool(wa.calls_to(r"validator::gather_direct_conflicts$")), "R3.4", "potential-from-present", wa.where(),
               "conflict table built from gather_direct_conflicts of every present id", "Conflicts::with_args no longer gathers direct conflicts of present ids")
 
     # ---- R3.5 exemptions
@@ -367,12 +377,21 @@ def run(ctx):
     ur = fx.body("clap_builder::builder::command::Command::unroll_arg_requires")
     pushes = ur.calls_to(r"Vec::push$")
     coll = [c for c in pushes if re.match(r"^next\(into_iter\(filter_map\(iter\(find\(self,pop\(.*\.requires\),func\)\)\)#Some\.0$", expr(ur, c.args[1]))]
-    cont = [c for c in pushes if re.match(r"^get_id\(find\(self,next\(into_iter\(filter_map\(", expr(ur, c.args[1]))]
+    cont = [c for c in pushes if re.match(r"^get_id\((filter\()?find\(self,next\(into_iter\(filter_map\(", expr(ur, c.args[1]))]
     res.floor("R3.7", "collecting push in unroll_arg_requires", len(coll), 1)
     for c in coll:
         bg = [g for g in guard_strs(ur, c.bb) if re.match(r"^[TF]:", g) and not re.match(r"^F:contains\(", g)]
         res.check(not bg, "R3.7", "collects-every-relevant", c.where(), "every relevant requirement of a visited arg is collected", "requirements are collected only under %s" % bg)
-    res.check(bool(cont) and all(any(re.match(r"^F:is_empty\(.*\.requires\)$", g) for g in guard_strs(ur, c.bb)) for c in cont), "R3.7", "transitive", ur.where(),
+    def _under_nonempty_requires(c):
+        if any(re.match(r"^F:is_empty\(.*\.requires\)$", g) for g in guard_strs(ur, c.bb)):
+            return True
+        # `self.find(&r).filter(|req| !req.requires.is_empty())` then `if let Some(req) = ..`: the pushed id is the payload of that filter
+        e_ = expr(ur, c.args[1])
+        for f_ in ur.calls_to(r"Option(<[^>]*>)?::filter$"):
+            if expr(ur, f_.dest) in e_ and any(re.fullmatch(r"Not\(is_empty\(\w+\.requires\)\)", expr(cb, 0)) for cb in own_closures(fx, f_)):
+                return True
+        return False
+    res.check(bool(cont) and all(_under_nonempty_requires(c) for c in cont), "R3.7", "transitive", ur.where(),
               "requirements that require something are visited too", "unroll_arg_requires no longer follows requirements transitively (or under a different condition)")
 
 
@@ -384,6 +403,8 @@ def run(ctx):
         res.check(bool(flt) and preds == ["Command::find", "MatchedArg::check_explicit"], "R3.5", "exclusive-count-over-all-explicit", c.where(), "count over explicitly present arguments (no further predicate)",
                   "validate_exclusive counts only a subset of the present arguments (filter consults %s): some combinations with an exclusive argument are no longer counted" % preds)
     early = [i for i, j, s_ in ve.stmts() if s_["k"] == "assign" and s_["place"] == 0 and s_["rv"]["k"] == "agg" and s_["rv"].get("variant") == "Ok"]
+    # (an Ok on the `no exclusive argument among them` edge of the final search is the normal result, not the early return)
+    early = [i for i in early if not any(re.match(r"^!?V\d+:", g) for g in guard_strs(ve, i))]
     res.check(bool(early) and all(any(o == "Le" and b_ == "1" and a.startswith("count(") for (o, a, b_) in cmp_facts(ve, i)) for i in early), "R3.5", "exclusive-early-return-threshold", ve.where(),
               "early Ok exactly when at most one argument is present", "validate_exclusive returns early under %s" % [sorted(cmp_facts(ve, i)) for i in early])
     # ---- R3.8 presence records only removed for overridden args
